@@ -105,6 +105,26 @@ def cms_join(ctx, cfg):
     ctx.check(ctx.and_(ctx.all_eq(pb, env.cells(b._bins)), ctx.eq(tb, b.elements_added)), "operands-unchanged")
 
 
+def cbf_union_raw(ctx, cfg):
+    """counting-Bloom union on arbitrary (unsaturated) counters and arbitrary element totals, e.g. results of earlier unions whose
+    total is an ESTIMATE (possibly 0 with non-zero counters): cellwise sum"""
+    env.setup(ctx, "bloom", "countingbloom")
+    from probables import CountingBloomFilter
+    a = CountingBloomFilter(cfg["est"], cfg["fpr"], hash_function=FIXED)
+    b = CountingBloomFilter(cfg["est"], cfg["fpr"], hash_function=FIXED)
+    m = a.number_bits
+    for j in range(m):
+        a._bloom[j] = ctx.int(f"a{j}", 0, 2 ** 24)
+        b._bloom[j] = ctx.int(f"b{j}", 0, 2 ** 24)
+    a.elements_added, b.elements_added = ctx.int("ta", 0, 2 ** 40), ctx.int("tb", 0, 2 ** 40)
+    pa, pb = env.cells(a._bloom), env.cells(b._bloom)
+    stub_estimate(ctx)
+    u = a.union(b)
+    ctx.check(u is not None and u is not a and u is not b, "cbf-union-new-object")
+    ctx.check(ctx.and_([ctx.eq(r, x + y) for r, x, y in zip(env.cells(u._bloom), pa, pb)]), "cbf-union-is-cellwise-sum")
+    ctx.check(ctx.and_(ctx.all_eq(pa, env.cells(a._bloom)), ctx.all_eq(pb, env.cells(b._bloom))), "operands-unchanged")
+
+
 def cms_join_raw(ctx, cfg):
     """join on arbitrary (unsaturated) counters and totals - also states add/remove of never-added keys produce - is cellwise sum"""
     env.setup(ctx, "cms")
@@ -123,17 +143,19 @@ def cms_join_raw(ctx, cfg):
     ctx.check(ctx.and_(ctx.all_eq(pb, env.cells(b._bins)), ctx.eq(tb, b.elements_added)), "operands-unchanged")
 
 
-HARNESS = {"c12.bloom_union": bloom_union, "c12.cbf_union": cbf_union, "c12.cms_join": cms_join, "c12.cms_join_raw": cms_join_raw}
+HARNESS = {"c12.bloom_union": bloom_union, "c12.cbf_union": cbf_union, "c12.cms_join": cms_join, "c12.cms_join_raw": cms_join_raw, "c12.cbf_union_raw": cbf_union_raw}
 
 
 def jobs(tier):
     js = []
-    for est, fpr in [(1, .9), (1, .5), (1, .3), (2, .3), (1, .05), (3, .28), (3, .2), (5, .3), (5, .22), (10, .05)] + ([(7, .1)] if tier == "thorough" else []):
+    for est, fpr in [(1, .9), (1, .5), (1, .3), (2, .3), (1, .05), (3, .28), (3, .25), (3, .2), (4, .25), (5, .3), (5, .22), (10, .05)] + ([(7, .1)] if tier == "thorough" else []):
         js.append({"h": "c12.bloom_union", "cfg": {"est": est, "fpr": fpr}, "opts": {"cost": est}})
     for est, fpr, K in [(1, .5, 2), (1, .3, 2), (2, .3, 2)] + ([(3, .2, 2), (2, .3, 3)] if tier == "thorough" else []):
         js.append({"h": "c12.cbf_union", "cfg": {"est": est, "fpr": fpr, "K": K}, "opts": {"cost": est * 10}})
     for w, d, K in [(1, 1, 2), (2, 2, 2), (3, 2, 2)] + ([(3, 3, 3), (3, 2, 3)] if tier == "thorough" else []):
         js.append({"h": "c12.cms_join", "cfg": {"w": w, "d": d, "K": K}, "opts": {"cost": w * d * 10}})
+    for est, fpr in [(1, .5), (1, .3), (2, .3)]:
+        js.append({"h": "c12.cbf_union_raw", "cfg": {"est": est, "fpr": fpr}, "opts": {"cost": est * 10}})
     for w, d in [(1, 1), (2, 2), (3, 2)]:
         js.append({"h": "c12.cms_join_raw", "cfg": {"w": w, "d": d}, "opts": {"cost": w * d * 10}})
     return js
